@@ -95,11 +95,15 @@ class History:
         self.sig = sig
 
 
-def front_end_masks(q, groups):
+def front_end_masks(q, groups, same=None):
     """What Interpret::getInterpolants does (Interpret.cc:1326-1362, modelled in coq/Front/ItpRequest.v): a name stands for
     its term; the partition index of a term is the FIRST position of an equal term in the never-popped vector of
-    everything that was pushed by an assert command (rejected ones included); masks are cumulative.
-    Returns (list of predicted index sets, list of the index sets the solver side uses for the named assertions, causes)."""
+    everything that was pushed by an assert command (rejected ones included); masks are cumulative; an (and ...) group is
+    rebuilt with Logic::mkAnd first (duplicates collapse).
+    `same(b1, b2)`: may the two assertion bodies be the same hash-consed term?  (syntactic equality by default; the
+    caller passes logical equivalence, an over-approximation of term identity).
+    Returns (predicted index sets, index sets the solver side gives to the named assertions, causes)."""
+    same = same or (lambda a, b: a == b)
     log = q["log"]
     pos_of_uid = {u: i for i, (u, _, _) in enumerate(log)}
     true_idx = {}
@@ -115,7 +119,7 @@ def front_end_masks(q, groups):
     for gp in groups[:-1]:
         for nm in gp:
             u, body = by_name[nm]
-            first = next(i for i, (_, b, _) in enumerate(log) if b == body)
+            first = next(i for i, (_, b, ok) in enumerate(log) if b == body or (ok and same(b, body)))
             accp.add(first)
             accw.add(true_idx[u])
             if first != true_idx[u]:
@@ -225,6 +229,8 @@ class Judge:
 
     def __init__(self, ctx, pid):
         self.ctx, self.pid = ctx, pid
+        self._z3cache = {}
+        self._decls = []
 
     def unsat(self, sig, logic, decls, forms):
         lg = "QF_UF" if logic == "QF_BOOL" else logic
@@ -242,6 +248,7 @@ class Judge:
         if R["rc"] == -9:
             ctx.count("timeout")
         decls = sc.decl_lines(text)
+        self._decls = decls
         status = None
         dead = False
         for q in hist.queries:
@@ -294,14 +301,36 @@ class Judge:
             self.interpolants(q, hist, logic, text, decls, groups, ans, origin)
 
     # -----------------------------------------------------------------------------------------
+    def z3_unsat(self, logic, decls, forms):
+        key = (logic, tuple(decls), tuple(sx_str(f) for f in forms))
+        if key not in self._z3cache:
+            lg = "QF_UF" if logic == "QF_BOOL" else logic
+            a, _ = sc.ref_answer("z3", lg, decls, forms, timeout=5)
+            self._z3cache[key] = a == "unsat"
+        return self._z3cache[key]
+
     def tags(self, q, hist, logic, groups):
+        """Labels that name the known root causes a violation may come from (they only select the known-finding entry;
+        z3 is used to over-approximate "same hash-consed term" by logical equivalence)."""
         tags = []
+        decls = self._decls
+
+        def same(b1, b2):
+            return b1 == b2 or self.z3_unsat(logic, decls, [["xor", b1, b2]])
         try:
-            pred, want, causes = front_end_masks(q, groups)
+            pred, want, causes = front_end_masks(q, groups, same)
             if pred != want:
                 tags.append("front-mask-wrong(%s)" % "+".join(sorted(causes) or ["?"]))
         except (StopIteration, KeyError):
             tags.append("front-mask-unpredicted")
+        # Logic::mkAnd folds a conjunction with complementary / constant members: the rebuilt group is no `and` any more
+        by_name = {nm: sc.strip_named(t) for (_, t, nm) in q["current"] if nm}
+        for gp in groups[:-1]:
+            if len(gp) > 1:
+                bodies = [by_name[nm] for nm in gp]
+                if self.z3_unsat(logic, decls, bodies) or self.z3_unsat(logic, decls, [["not", ["and"] + bodies]]):
+                    tags.append("and-group-folds")
+                    break
         if q["level"] > 0 or any(c[0] == "pop" for c in hist.cmds if isinstance(c, list) and c):
             tags.append("incr")
         return tags + option_tags(q, logic)
